@@ -80,6 +80,8 @@ int  base_getNumOutputs(const TSG *s){ base_ok(s); return s->outs; }
 int  base_getNumLoaded(const TSG *s){ base_ok(s); return s->loaded; }
 int  base_getNumNeeded(const TSG *s){ base_ok(s); return s->needed; }
 int  base_getNumPoints(const TSG *s){ base_ok(s); return s->loaded == 0 ? s->needed : s->loaded; }
+/* an output argument that reaches a family object is -1 (all outputs) or a valid output index: the families index their value arrays with it */
+static void out_ok(const TSG *s, int out){ __CPROVER_assert(out >= -1 && out < s->outs, "C14 an output index that reaches the family object is -1 or a valid output (otherwise the documented invalid_argument was not raised)"); }
 static void family_call(TSG *s, int kind, gvec limits, bool takes_limits){
   base_ok(s);
   __CPROVER_assert(s->base == kind, "C14 the family cast matches the type of the grid");
@@ -98,17 +100,18 @@ int new_grid(TSG *s, int kind, gvec limits){
   g_ctor_calls++;
   return kind;
 }
-void GridSequence_setAnisotropicRefinement(TSG *s, TypeDepth t, int mg, int out, gvec l){ family_call(s, K_GridSequence, l, true); }
-void GridGlobal_setAnisotropicRefinement(TSG *s, TypeDepth t, int mg, int out, gvec l){ family_call(s, K_GridGlobal, l, true); }
-void GridFourier_setAnisotropicRefinement(TSG *s, TypeDepth t, int mg, int out, gvec l){ family_call(s, K_GridFourier, l, true); }
-void GridSequence_setSurplusRefinement(TSG *s, double tol, int out, gvec l){ family_call(s, K_GridSequence, l, true); }
-void GridGlobal_setSurplusRefinement(TSG *s, double tol, int out, gvec l){ family_call(s, K_GridGlobal, l, true); }
+void GridSequence_setAnisotropicRefinement(TSG *s, TypeDepth t, int mg, int out, gvec l){ out_ok(s, out); family_call(s, K_GridSequence, l, true); }
+void GridGlobal_setAnisotropicRefinement(TSG *s, TypeDepth t, int mg, int out, gvec l){ out_ok(s, out); family_call(s, K_GridGlobal, l, true); }
+void GridFourier_setAnisotropicRefinement(TSG *s, TypeDepth t, int mg, int out, gvec l){ out_ok(s, out); family_call(s, K_GridFourier, l, true); }
+void GridSequence_setSurplusRefinement(TSG *s, double tol, int out, gvec l){ out_ok(s, out); family_call(s, K_GridSequence, l, true); }
+void GridGlobal_setSurplusRefinement(TSG *s, double tol, int out, gvec l){ out_ok(s, out); family_call(s, K_GridGlobal, l, true); }
 void GridLocalPolynomial_setSurplusRefinement(TSG *s, double tol, TypeRefinement c, int out, gvec l, gptr scale){
   G2(__CPROVER_assert(scale.null || !scale.sized || scale.size == (size_t) s->loaded * (size_t)(out == -1 ? s->outs : 1),
                    "F6 a scale correction that reaches the family has one weight per loaded point and active output");)
+  out_ok(s, out);
   family_call(s, K_GridLocalPolynomial, l, true);
 }
-void GridWavelet_setSurplusRefinement(TSG *s, double tol, TypeRefinement c, int out, gvec l){ family_call(s, K_GridWavelet, l, true); }
+void GridWavelet_setSurplusRefinement(TSG *s, double tol, TypeRefinement c, int out, gvec l){ out_ok(s, out); family_call(s, K_GridWavelet, l, true); }
 void GridGlobal_updateGrid(TSG *s, int depth, TypeDepth t, gvec aw, gvec l){ family_call(s, K_GridGlobal, l, true); }
 void GridSequence_updateGrid(TSG *s, int depth, TypeDepth t, gvec aw, gvec l){ family_call(s, K_GridSequence, l, true); }
 void GridFourier_updateGrid(TSG *s, int depth, TypeDepth t, gvec aw, gvec l){ family_call(s, K_GridFourier, l, true); }
